@@ -1,7 +1,7 @@
 #!/bin/bash
-# usage: validate_seeded.sh <ID> [worktree]   — confirm a seeded change in a scratch worktree:
+# usage: validate_seeded.sh <ID> [worktree] [subdir of _out]   — confirm a seeded change in a scratch worktree:
 #  (1) patch only: the whole shipped suite passes; (2) patch + demo: the demo fails; (3) demo only: everything passes.
-ID=$1; WT=${2:-/tmp/krp-mut-$ID}; OUT=$WT/_out
+ID=$1; WT=${2:-/tmp/krp-mut-$ID}; OUT=$WT/_out${3:+/$3}
 cd "$WT" || exit 2
 export CARGO_TARGET_DIR=$WT/target CARGO_NET_OFFLINE=true
 git checkout -q -- . && git clean -fdq -e _out -e target
